@@ -195,7 +195,7 @@ theorem dataSpec_stable {w y : Bytes} (eP : uP1 (w ++ y) = uP1 w) (eW : uW1 (w +
 
 /-- a unit that ends before the end of `w` (or whose terminator is not a final CR followed by LF) is used by
 `SCPI_Parse` in the same way when more bytes follow -/
-theorem detect_stable (w y : Bytes) (J : Nat) (hJ : NLat w J) (hq : NoQuotes (w ++ y))
+theorem detect_stable (w y : Bytes) (J : Nat) (hJ : NLat w J) (hq : QuotesLineLocal (w ++ y))
     (hx : w.drop (uData w).1 ≠ [13] ∨ y.head? ≠ some 10)
     (hend : (specUnit w).consumed ≤ J + 1)
     (hterm : (specUnit w).term ≠ .none ∨ (specUnit w).wellFormed = false) :
@@ -207,7 +207,7 @@ theorem detect_stable (w y : Bytes) (J : Nat) (hJ : NLat w J) (hq : NoQuotes (w 
 
 /-- the exception: the terminator is a CR at the very end of `w` and a line feed follows — one byte more is
 consumed, nothing else changes -/
-theorem detect_crlf (w y : Bytes) (hq : NoQuotes (w ++ 10 :: y)) (hr : w.drop (uData w).1 = [13]) :
+theorem detect_crlf (w y : Bytes) (hq : QuotesLineLocal (w ++ 10 :: y)) (hr : w.drop (uData w).1 = [13]) :
     UEq (detectUnit (w ++ 10 :: y)) (detectUnit w) ∧
     (detectUnit (w ++ 10 :: y)).consumed = (detectUnit w).consumed + 1 := by
   obtain ⟨hs, _, _, hlen⟩ := specUnit_crlf w y hq hr
